@@ -166,8 +166,7 @@ def r_variant_tree(model, rep):
     if ok:
         # (a condition that is itself chosen by the format version - a predicate helper with a legacy branch - is what it says
         # for the current version)
-        ng = [g for g in [(facts.pick_at_version(g0[0], V), g0[1]) for g0 in app[0].guards if g0[0][0] != "exc"]
-              if not facts.is_pure_gate(g[0])]
+        ng = facts.guards_at_version(app[0], V) or []
         uid = app[0].value[2][0]
         ngc = [facts.canon_guard_pair(g) for g in ng]      # (``if uid in children: continue`` and ``if uid not in children:`` alike)
         if not ngc:
@@ -771,7 +770,7 @@ def r_ti_variant_tree(model, rep):
            msg="" if ok else "[tree]/variants must be the sorted comma list of the uid of every top-level variant")
     g = model.own_method("treeinfo.Variants", "deserialize_1_0")
     gcx = facts.fctx(model, g)
-    rets = [ev for ev in gcx.events if ev.kind == "return" and ev.value != ("list", ())]
+    rets = [ev for ev in gcx.events if ev.kind == "return" and T.unwrap(ev.value) != ("list", ())]
     IN = P(gcx.params[1])
     src = ("call", ("attr", ("call", ("attr", IN, "get"), (("const", "tree"), ("const", "variants")), ()), "split"), (("const", ","),), ())
     ok = len(rets) == 1 and T.contains(rets[0].value, lambda x: x == src)
@@ -788,7 +787,7 @@ def r_ti_variant_tree(model, rep):
         el = ("elem", ad.loops[-1][1], ad.loops[-1][0])
         des = [ev for ev in hcx.events if ev.kind == "call" and ev.value[1] == ("attr", child, "deserialize") and ev.loops == ad.loops]
         ok = len(des) == 1 and des[0].value[2] == (P(hcx.params[1]), el) and des[0].seq < ad.seq and not T.guard_tests(ad) \
-            and dict(ad.value[3]).get("variant_id") == ("attr", child, "uid")
+            and facts.arg_of(ad.value, "variant_id", 1) == ("attr", child, "uid")
     rep.ob("R-TI-VARIANT-TREE", "treeinfo.Variants.deserialize:attach", ok, site=hcx.site(h.node),
            msg="" if ok else "every listed variant must be deserialised under its uid and attached with add(variant, variant_id=variant.uid)")
     # children: addons list
@@ -1645,14 +1644,14 @@ def r_general_prov(model, rep):
     t = model.own_method("treeinfo.TreeInfo", "serialize")
     tcx = facts.fctx(model, t)
     gs = [ev for ev in tcx.calls("serialize") if T.unwrap(ev.value[1][1])[0] == "call" and T.unwrap(ev.value[1][1])[1] == ("global", "General")]
-    ok = len(gs) == 1 and dict(gs[0].value[3]).get("main_variant") == P("main_variant") and not gs[0].guards \
+    ok = len(gs) == 1 and facts.arg_of(gs[0].value, "main_variant", 1) == P("main_variant") and not gs[0].guards \
         and T.unwrap(gs[0].value[1][1])[2] == (P(tcx.selfname),)
     rep.ob("R-GENERAL-PROV", "TreeInfo.serialize:passes-main_variant", ok, site=tcx.site(t.node),
            msg="" if ok else "TreeInfo.serialize must write General(self) with main_variant passed through, unconditionally")
     d = model.own_method("treeinfo.TreeInfo", "dump")
     dcx = facts.fctx(model, d)
     se = dcx.calls("serialize", on_self=True)
-    ok = len(se) == 1 and dict(se[0].value[3]).get("main_variant") == P("main_variant")
+    ok = len(se) == 1 and facts.arg_of(se[0].value, "main_variant", 1) == P("main_variant")
     rep.ob("R-GENERAL-PROV", "TreeInfo.dump:passes-main_variant", ok, site=dcx.site(d.node),
            msg="" if ok else "TreeInfo.dump must pass main_variant on to serialize()")
     rep.floor("R-GENERAL-PROV", 8)
